@@ -1,5 +1,5 @@
 """Which rules and witnesses decide which property."""
-from . import shared_state, surface, entry, tables, dirflow, precision, gates, kbound, primw, symbound
+from . import shared_state, surface, entry, tables, dirflow, precision, gates, kbound, primw, symbound, smallguard
 
 RULES = {
     "R-NOCELL": shared_state.r_nocell,
@@ -25,6 +25,7 @@ RULES = {
     "R-BLUEMOD": precision.r_bluemod,
     "R-NORECUR": precision.r_norecur,
     "R-FROMF64": precision.r_fromf64,
+    "R-NOSUM": precision.r_nosum,
     "R-RINGOPS": precision.r_ringops,
     "R-GATES": gates.r_featgate,
     "R-PLANNERGATE": gates.r_plannergate,
@@ -34,6 +35,7 @@ RULES = {
     "R-RELSITES": primw.r_relsites,
     "R-WHOCALLS": primw.r_whocalls,
     "R-SYMBOUND": symbound.r_symbound,
+    "R-SMALLGUARD": smallguard.r_smallguard,
 }
 
 PROPS = {
@@ -95,7 +97,7 @@ PROPS = {
     },
     "C04": {
         "level": "other",
-        "rules": ["R-TABLES", "R-DIRFLOW", "R-ZEROGUARD", "R-ZEROLEN", "R-REPLAN"],
+        "rules": ["R-TABLES", "R-DIRFLOW", "R-ZEROGUARD", "R-ZEROLEN", "R-REPLAN", "R-SMALLGUARD"],
         "witnesses": [],
         "explanation": "Handler exhaustiveness and agreement of the planner tables, for every n: (R-TABLES) length literal -> Recipe variant -> "
                        "Recipe::len constant -> constructor type -> that type's Length::len constant agree for the scalar and SSE planners (both "
@@ -104,7 +106,11 @@ PROPS = {
                        "reports that length, every hard-coded plan satisfies base*radixes = key, every radix literal a planner can push has a "
                        "non-unreachable arm in construct_plan, recipe matches have no wildcard; (R-DIRFLOW) the requested direction is the only "
                        "direction any constructor receives and fft_direction() reads it back; (R-ZEROGUARD) length 0 never reaches a factoriser; (R-ZEROLEN) "
-                       "every helper returns before the chunk loop when chunk_size == 0, so a length-0 transform accepts an empty buffer and terminates.",
+                       "every helper returns before the chunk loop when chunk_size == 0, so a length-0 transform accepts an empty buffer and terminates; "
+                       "(R-REPLAN) the AVX planner's cache splice keeps exactly the part of the radix chain after the cached stage; (R-SMALLGUARD) the scalar and SSE "
+                       "planners select MixedRadixSmall/GoodThomasAlgorithmSmall only below a child-length guard under which no prime is routed to Bluestein's "
+                       "algorithm by the planner's own design_prime test (butterfly table, guard constant and MAX_RADER_PRIME_FACTOR read from the code), so the "
+                       "constructor asserts of the *Small algorithms cannot fire.",
         "decides": "no design-stage product can reach an 'Invalid butterfly len'/unreachable!() arm; reported len() and fft_direction() of planned butterflies/recipes equal the request",
         "does_not_decide": "panics that depend on residues of n (asserts in design_radixn, plan_bluesteins, divide_by().unwrap(), *Small preconditions)",
         "assumptions": ["x86_64 non-test code; neon/wasm planners are the always-Err stubs here"],
@@ -149,7 +155,7 @@ PROPS = {
     },
     "C02": {
         "level": "other",
-        "rules": ["R-TWF64", "R-BLUEMOD", "R-NORECUR", "R-FROMF64"],
+        "rules": ["R-TWF64", "R-BLUEMOD", "R-NORECUR", "R-NOSUM", "R-FROMF64"],
         "witnesses": [],
         "explanation": "Decides the three precision MECHANISMS the property is anchored in, each a necessary condition of the bound, NOT the bound "
                        "16*eps*log2(2n) itself: (R-TWF64) in compute_twiddle the sin/cos arguments are f64 expressions built only from f64 "
@@ -157,7 +163,8 @@ PROPS = {
                        "call), results go straight to T::from_f64 as (re,im)=(cos,sin), Inverse = conj; (R-BLUEMOD) every chirp index is (i*i) mod f(2n) "
                        "computed in >=64-bit integer arithmetic, the 64-bit branch dominated by len < 2^32, for the length 2*destination.len(); "
                        "(R-NORECUR) no function that obtains twiddles from a twiddle source multiplies two twiddle-derived complex values (no table by "
-                       "recurrence); (R-FROMF64) constants enter only via from_f64/from_usize. A tree passing these rules can still violate the "
+                       "recurrence); (R-NOSUM) no iterator sum/fold/reduce of element-type values outside the naive Dft (a linear summation chain has "
+                       "eps*n error growth; hand-written accumulation loops are not covered); (R-FROMF64) constants enter only via from_f64/from_usize. A tree passing these rules can still violate the "
                        "numeric bound (e.g. a numerically poor butterfly); that part is value-level and not decided.",
         "decides": "mechanisms: f64-only twiddle evaluation from an integer index, integer mod 2n before the Bluestein chirp, no twiddle recurrence",
         "does_not_decide": "the bound 16*eps*log2(2n) itself; pre-scaling by 1/m beyond its appearance as a real-scalar product",
@@ -165,7 +172,7 @@ PROPS = {
     },
     "C13": {
         "level": "other",
-        "rules": ["R-GATES", "R-PLANNERGATE", "R-TABLES"],
+        "rules": ["R-GATES", "R-PLANNERGATE", "R-TABLES", "R-DIRFLOW", "R-SMALLGUARD"],
         "all_feature_sets_in_quick": True,
         "witnesses": [],
         "explanation": "All four cargo feature sets (default, sse, avx, none) are type-checked and analysed -- three of them are programs no test "
